@@ -128,8 +128,8 @@ Qed.
     (any buffer size > 4, any schedule of read sizes) are the same characters *)
 Theorem port_write_read_roundtrip cs wn rn sched : Forall cp cs -> (1 <= wn)%nat -> (BUF_START < rn)%nat ->
   exists o, write_chars (open_output_string wn) cs = Ok o /\ out_bytes o = enc_all cs /\
-    (exists p', read_string (length cs) (open_string_port (out_bytes o)) = (cs, p') /\ pending p' = []) /\
-    (exists p', read_string (length cs) (open_fd_port rn (out_bytes o) sched) = (cs, p') /\ pending p' = []).
+    (exists p', read_string (length cs) (open_string_port (out_bytes o)) = (Ok cs, p') /\ pending p' = []) /\
+    (exists p', read_string (length cs) (open_fd_port rn (out_bytes o) sched) = (Ok cs, p') /\ pending p' = []).
 Proof.
   intros Hcs Hw Hr. destruct (open_output_string_ok wn Hw) as [OK0 OUT0].
   destruct (write_chars_spec cs _ OK0 Hcs) as (o & W & OK & OUT). rewrite OUT0 in OUT. cbn [app] in OUT.
